@@ -122,6 +122,10 @@ Theorem eviction_eligible cs s s' lg x :
     r ∈ lg /\ a_ok r = true /\ c ∈ a_evicted r /\ t_id c = x /\
     nodes (a_pre r) !! a_node r = Some n /\ (exists i, n_tasks n !! i = Some c) /\
     cand_ok E (a_kind r) (a_pre r) (a_task r) (a_queue r) c = true /\
+    (* the copy the node held was Running, or Bound for preemption - whatever other statuses (Allocated,
+       Binding, Pipelined, Releasing ...) the session contains *)
+    (t_status c = Running \/ (is_reclaim (a_kind r) = false /\ t_status c = Bound)) /\
+    t_preemptable c = true /\
     c ∈ a_cands r /\
     (* E with the capacity plugin's pop order of this vote installed; nothing else differs *)
     let E' := with_qorder E (a_qorder r) in
@@ -144,7 +148,18 @@ Proof.
   destruct (victims_eligible eps (with_qorder E (a_qorder r)) _ _ _ _ c Hnd (Hev c Hc)) as (Hcl' & tier & Hd & Hall).
   pose proof (Hcands c Hcl') as Hcl''. apply node_cands_in in Hcl'' as [Hi Hcok].
   exists r, c, n. split; [exact Hrl|]. split; [exact Hk|]. split; [exact Hc|]. split; [exact Hid|].
-  split; [exact Hn|]. split; [exact Hi|]. split; [exact Hcok|]. split; [exact Hcl'|].
+  split; [exact Hn|]. split; [exact Hi|]. split; [exact Hcok|].
+  split.
+  { destruct (a_kind r) eqn:Hkind.
+    - destruct (preempt_candidates_eligible AInter _ _ _ _ ltac:(discriminate) Hcok) as ([?|?] & _); auto.
+    - destruct (preempt_candidates_eligible AIntra _ _ _ _ ltac:(discriminate) Hcok) as ([?|?] & _); auto.
+    - destruct (reclaim_candidates_eligible _ _ _ _ Hcok) as (? & _); auto. }
+  split.
+  { destruct (a_kind r) eqn:Hkind.
+    - apply (preempt_candidates_eligible AInter _ _ _ _ ltac:(discriminate) Hcok).
+    - apply (preempt_candidates_eligible AIntra _ _ _ _ ltac:(discriminate) Hcok).
+    - apply (reclaim_candidates_eligible _ _ _ _ Hcok). }
+  split; [exact Hcl'|].
   exists tier. split; [exact Hd|]. intros pl Hpl Hen. specialize (Hall pl Hpl Hen).
   destruct (p_kind pl); exact Hall.
 Qed.
